@@ -5,6 +5,8 @@ package main
 
 import (
 	"fmt"
+	"os"
+	"sync"
 	"go/ast"
 	"go/constant"
 	"go/token"
@@ -98,8 +100,20 @@ func (fx *FuncExec) fresh(hint, sort string) string {
 	return n
 }
 
+var varIDs = map[*types.Var]int{}
+var varIDmu sync.Mutex
+
+// varKey: a state key unique per variable OBJECT (the implicit variables of
+// the clauses of a type switch share name and position).
 func varKey(v *types.Var) string {
-	return fmt.Sprintf("L:%s@%d", v.Name(), v.Pos())
+	varIDmu.Lock()
+	id, ok := varIDs[v]
+	if !ok {
+		id = len(varIDs) + 1
+		varIDs[v] = id
+	}
+	varIDmu.Unlock()
+	return fmt.Sprintf("L:%s@%d.%d", v.Name(), v.Pos(), id)
 }
 
 func (fx *FuncExec) posStr(p token.Pos) string {
@@ -449,10 +463,22 @@ func (fx *FuncExec) cardFun(ksort string) string {
 
 // oblige records a proof obligation: under the state's path condition, goal holds.
 func (fx *FuncExec) oblige(st *State, kind, label, goalSMT, goalText string, pos token.Pos) *Obligation {
-	fx.counters[kind]++
-	name := fmt.Sprintf("%s/%s#%d", fx.fi.Key, kind, fx.counters[kind])
-	if label != "" {
-		name += "/" + label
+	// labelled obligations are named by their label (stable under insertion
+	// of further clauses); unlabelled ones by ordinal
+	var name string
+	if label != "" && (kind == "assert" || kind == "ensures") {
+		ck := kind + "/" + label + fx.suffix
+		fx.counters[ck]++
+		name = fmt.Sprintf("%s/%s/%s", fx.fi.Key, kind, label)
+		if n := fx.counters[ck]; n > 1 {
+			name += fmt.Sprintf("~%d", n)
+		}
+	} else {
+		fx.counters[kind]++
+		name = fmt.Sprintf("%s/%s#%d", fx.fi.Key, kind, fx.counters[kind])
+		if label != "" {
+			name += "/" + label
+		}
 	}
 	name += fx.suffix
 	o := &Obligation{Name: name, Func: fx.fi.Key, Kind: kind, Label: label, Pos: fx.posStr(pos), Goal: goalText,
@@ -477,11 +503,15 @@ func (fx *FuncExec) specEnv(cur, old *State, pos token.Pos, where string) *SpecE
 
 // Render produces the SMT-LIB script for an obligation: pruned global
 // preamble, the function-level constants it mentions, assumptions, goal.
-func (o *Obligation) Render(_ string) string {
+func (o *Obligation) Render(_ string) string { return o.RenderDepth(0) }
+
+// RenderDepth renders the obligation with the assumptions restricted to those
+// within `depth` symbol-sharing hops of the goal (0: the whole cone).
+func (o *Obligation) RenderDepth(depth int) string {
 	fx := o.fx
 	var body strings.Builder
 	seen := map[string]bool{}
-	for _, p := range o.PC {
+	for _, p := range sliceAssumptions(o.PC, o.Neg, o.Expect == "sat", depth) {
 		body.WriteString("(assert " + p + ")\n")
 	}
 	if o.Expect == "unsat" {
@@ -678,4 +708,87 @@ func (fx *FuncExec) axiomPkgOK() func(string) bool {
 		}
 		return dep(fx.pkg)
 	}
+}
+
+var noSlice = os.Getenv("VERIF_NOSLICE") == "1"
+
+// sliceAssumptions keeps only the assumptions in the cone of influence of the
+// goal: those sharing (transitively) a program-level symbol with it. Dropping
+// an assumption is always sound; it only makes the query smaller.
+func sliceAssumptions(pc []string, goal string, keepAll bool, depth int) []string {
+	if keepAll || noSlice || len(pc) < 40 {
+		return pc
+	}
+	link := func(sym string) bool {
+		if ubiquitous[sym] || strings.HasPrefix(sym, "AL_") || strings.HasPrefix(sym, "H0_AL_") || strings.HasPrefix(sym, "null_") ||
+			strings.HasPrefix(sym, "uf_") || strings.HasPrefix(sym, "box_") || strings.HasPrefix(sym, "unbox_") || strings.HasPrefix(sym, "impl_") ||
+			strings.HasPrefix(sym, "str_") || strings.HasPrefix(sym, "gv_") || strings.HasPrefix(sym, "imm_") || strings.HasPrefix(sym, "cap_") ||
+			sym == "sref" || sym == "soff" || sym == "slen" || sym == "mk_slice" || sym == "nil_slice" || sym == "tag" || sym == "fn_code" || sym == "fn_nil" ||
+			sym == "rv_invalid" || sym == "rt_nil" || sym == "unit" || sym == "wrap32" || sym == "wrap8" {
+			return false
+		}
+		if len(sym) > 0 && (sym[0] >= '0' && sym[0] <= '9') {
+			return false
+		}
+		return strings.Contains(sym, "!") || strings.HasPrefix(sym, "H0_")
+	}
+	psyms := make([]map[string]bool, len(pc))
+	for i, p := range pc {
+		m := map[string]bool{}
+		symbolsOf(p, m)
+		ps := map[string]bool{}
+		for sy := range m {
+			if link(sy) {
+				ps[sy] = true
+			}
+		}
+		psyms[i] = ps
+	}
+	rel := map[string]bool{}
+	gs := map[string]bool{}
+	symbolsOf(goal, gs)
+	for sy := range gs {
+		if link(sy) {
+			rel[sy] = true
+		}
+	}
+	in := make([]bool, len(pc))
+	round := 0
+	for changed := true; changed; {
+		changed = false
+		round++
+		if depth > 0 && round > depth {
+			break
+		}
+		add := map[string]bool{}
+		for i := range pc {
+			if in[i] {
+				continue
+			}
+			hit := len(psyms[i]) == 0 // closed facts (no program symbol) are kept
+			for sy := range psyms[i] {
+				if rel[sy] {
+					hit = true
+					break
+				}
+			}
+			if hit {
+				in[i] = true
+				changed = true
+				for sy := range psyms[i] {
+					add[sy] = true
+				}
+			}
+		}
+		for sy := range add {
+			rel[sy] = true
+		}
+	}
+	var out []string
+	for i, p := range pc {
+		if in[i] {
+			out = append(out, p)
+		}
+	}
+	return out
 }
